@@ -127,9 +127,77 @@ def big_boards(tier):
     return gen
 
 
+def medium_phase(tier):
+    from harness import medium
+    def gen():
+        for c in medium.medium_cases(27 if tier == "quick" else 360, base_seed=1):
+            yield dict(kind="medium", seed=c["seed"], n_inner=c["n_inner"])
+    return gen
+
+
+def check_medium(case, v):
+    """Games of 20-300 states: bracket oracle (own Gauss-Seidel from below and from above), residual,
+    pruning on/off differential."""
+    from harness import medium
+    from harness.analysis import bellman_reach
+    game = medium.medium_game(case["seed"], case["n_inner"])
+    n = len(game["players"])
+    v.key = case
+    v.cls("medium", f"medium_states<={64 if n <= 64 else 128 if n <= 128 else 320}")
+    v.nontrivial = True
+    L, U, pos = medium.bracket_reach(game)
+    finals = set(game["final_states"])
+    res = {}
+    for prune in (True, False):
+        o, info = medium.solve_medium(game, prune)
+        if o is None:
+            v.inconclusive = info
+            return v
+        res[prune] = o
+        lab = f"medium game (seed={case['seed']}, {n} states) solve(prune={prune})"
+        if o.kind == "nosol":
+            v.cls("no_solution")
+            if not prune or 0 in pos and U[0] > 1e-5:
+                v.fail("nosol-but-positive", f"{lab} raised no-solution; value of state 0 is in [{L[0]!r}, {U[0]!r}]")
+            continue
+        if o.kind in ("budget", "skipped"):
+            v.inconclusive = "sweep budget / T_c limit (reported by C06)"
+            continue
+        if o.kind != "ok":
+            v.fail("solve-raises", f"{lab}: {o.brief()}", sig=o.kind)
+            continue
+        phat = o.result[3]
+        T = info["T"]
+        b = bellman_reach(game, phat)
+        worst = max(abs(x - y) for x, y in zip(b, phat))
+        if worst > 1e-6 + SLACK:
+            v.fail("residual-above-threshold", f"{lab}: |B p - p| = {worst:.3g} > 1e-6")
+        for s in range(n):
+            if s in finals:
+                if phat[s] != 1:
+                    v.fail("final-not-1", f"{lab}: final state {s} reports {phat[s]!r}")
+            elif s not in pos:
+                if phat[s] > SLACK:
+                    v.fail("exceeds-true-value", f"{lab}: state {s} is worth 0 but reports {phat[s]!r}", sig="zero")
+                    break
+            elif phat[s] > U[s] + 1e-9:
+                v.fail("exceeds-true-value", f"{lab}: state {s} reports {phat[s]!r} > upper bound {U[s]!r}", sig="pos")
+                break
+            elif L[s] - phat[s] > 1e-6 * (T * 1.01 + 2) + 1e-9:
+                v.fail("too-far-below", f"{lab}: state {s} reports {phat[s]!r}, lower bound {L[s]!r}, "
+                                        f"allowed gap {1e-6 * (T * 1.01 + 2):.3g} (T^={T:.3g})")
+                break
+    a, b2 = res.get(True), res.get(False)
+    if a is not None and b2 is not None and a.kind == "ok" and b2.kind == "ok" and a.result[3] != b2.result[3]:
+        v.fail("prune-changes-probabilities", "medium game: probabilities differ between pruning modes")
+    return v
+
+
 def phases(tier):
     mp = 256 if tier == "quick" else 4096
     return [
+        Phase("medium-size-games-bracket", enum=medium_phase(tier),
+              note="stopping games of 20-300 states, own value iteration from below and above as reference"),
         Phase("planted-slow-cycles", enum=planted_cases, note="values that need many sweeps"),
         Phase("arbitrary-games", strategy=lambda: any_cases(max_pairs=mp), examples=(1200, 40000)),
         Phase("stopping-games", strategy=lambda: stopping_cases(10 if tier == "quick" else 13), examples=(1200, 40000)),
@@ -199,7 +267,7 @@ def compare_exact(v, game, facts, phat, pstar, theta, sweeps, label):
     T = None
     if stopping:
         T = facts.T
-        if T > T_MAX:
+        if facts.too_slow:
             v.cls("T>300")
     jac = None
     for s in range(n):
@@ -220,7 +288,7 @@ def compare_exact(v, game, facts, phat, pstar, theta, sweeps, label):
                    sig="zero" if ps == 0 else "pos")
             continue
         if stopping:
-            if T <= T_MAX and float(ps) - ph > tol(theta, T, ps):
+            if not facts.too_slow and float(ps) - ph > tol(theta, T, ps):
                 v.fail("too-far-below", f"{label}: state {s} reports {ph!r}, exact {float(ps)!r}, "
                                         f"allowed gap theta*(T+1)={tol(theta, T, ps):.3g} (theta={theta}, T={float(T):.3g})")
         else:
@@ -264,7 +332,7 @@ def check_small(case, v):
     if not facts.stopping:
         v.inconclusive = "solve() route needs a stopping game"
         return v
-    if facts.T > T_MAX:
+    if facts.too_slow:
         v.inconclusive = "T>300"
         return v
     a = Solved(facts, prune)
@@ -369,4 +437,6 @@ def check_case(case):
     v = Verdict()
     if case["kind"] == "board":
         return check_board(case, v)
+    if case["kind"] == "medium":
+        return check_medium(case, v)
     return check_small(case, v)
